@@ -1088,6 +1088,11 @@ def _iter_adapt(name):
                 if r:
                     out.append(x)
             return PyIter(out)
+        if name == "flat_map":
+            out = []
+            for x in xs:
+                out.extend(items_of(m.call_value(a[1], [x])))
+            return PyIter(out)
         if name == "filter_map":
             out = []
             for x in xs:
@@ -1104,6 +1109,16 @@ def _iter_adapt(name):
         if name == "zip":
             ys = items_of(a[1])
             return PyIter([(x, y) for x, y in zip(xs, ys)])
+        if name in ("take_while", "skip_while"):
+            k = 0
+            for x in xs:
+                r = m.call_value(a[1], [x])
+                if isinstance(r, Term):
+                    r = m.decide(r)
+                if not r:
+                    break
+                k += 1
+            return PyIter(xs[:k] if name == "take_while" else xs[k:])
         if name == "skip":
             return PyIter(xs[a[1]:])
         if name == "take":
@@ -1113,6 +1128,8 @@ def _iter_adapt(name):
             targs = c.get("targs") or []
             if len(targs) >= 2:
                 target = targs[1]
+            if target in ("std::string::String", "alloc::string::String") and all(isinstance(deref(x), str) for x in xs):
+                return "".join(deref(x) for x in xs)
             if target.startswith("std::collections::BTreeSet<") or target.startswith("std::collections::HashSet<"):
                 return PySet(xs)
             if target.startswith("std::collections::BTreeMap<") or target.startswith("std::collections::HashMap<"):
@@ -1262,8 +1279,8 @@ def _iter_adapt(name):
     return h
 
 
-for _nm in ["enumerate", "rev", "map", "filter", "filter_map", "cloned", "copied", "chain", "zip",
-            "skip", "take", "collect", "count", "sum", "all", "any", "fold", "for_each", "max", "min",
+for _nm in ["enumerate", "rev", "map", "filter", "flat_map", "filter_map", "cloned", "copied", "chain", "zip",
+            "skip", "take", "take_while", "skip_while", "collect", "count", "sum", "all", "any", "fold", "for_each", "max", "min",
             "last", "unzip", "position", "find", "cmp", "partial_cmp", "eq", "ne", "by_ref", "peekable", "fuse", "max_by_key", "min_by_key", "try_fold", "try_for_each"]:
     TRAIT_TABLE[("std::iter::Iterator", _nm)] = _iter_adapt(_nm)
     SEMANTIC_FIRST.add(("std::iter::Iterator", _nm))
@@ -1825,10 +1842,49 @@ def parse_template(tpl):
             out.append(("arg", idx, bool(flags & (1 << 23)), flags, width))
 
 
+def _string_place(ref):
+    """the innermost &mut place behind a chain of references (a String buffer is a Python str held in a place)"""
+    r = ref
+    while isinstance(r, MutRef) and isinstance(r.get(), MutRef):
+        r = r.get()
+    if not isinstance(r, MutRef):
+        raise Unsupported("String buffer that is not a place")
+    return r
+
+
+@reg("std::string::String::new")
+def _string_new(m, a, c):
+    return ""
+
+
+@reg("std::string::String::push_str", "<std::string::String as std::fmt::Write>::write_str")
+def _string_push_str(m, a, c):
+    pl = _string_place(a[0])
+    pl.set(pl.get() + _s(a[1]))
+    return () if c.get("name") == "push_str" else FMT_OK
+
+
+@reg("std::string::String::push", "<std::string::String as std::fmt::Write>::write_char")
+def _string_push(m, a, c):
+    pl = _string_place(a[0])
+    ch = deref(a[1])
+    pl.set(pl.get() + (ch if isinstance(ch, str) else chr(ch)))
+    return () if c.get("name") == "push" else FMT_OK
+
+
 @reg("std::fmt::Formatter::<'a>::write_fmt", "std::fmt::Write::write_fmt")
 def _fmt_write_fmt(m, a, c):
     f = deref(a[0])
     fa = deref(a[1])
+    if isinstance(f, str) and isinstance(fa, FmtArgs):
+        # a String as fmt::Write target: render with a fresh Formatter, append the text
+        tmp = PyFmt(False)
+        r = _fmt_write_fmt(m, [tmp, fa], c)
+        if not all(isinstance(x, str) for x in tmp.out):
+            raise Unsupported("opaque token written into a String")
+        pl = _string_place(a[0])
+        pl.set(pl.get() + "".join(tmp.out))
+        return r
     if isinstance(f, Adt) and isinstance(fa, FmtArgs):
         # a crate-local fmt::Write implementor: core::fmt::write renders the arguments with a fresh
         # Formatter (default options) whose output goes through the implementor's write_str
@@ -1971,6 +2027,36 @@ def _str_contains(m, a, c):
 def _str_strip_prefix(m, a, c):
     s, p = _s(a[0]), _s(a[1])
     return some(s[len(p):]) if s.startswith(p) else NONE
+
+
+@reg("std::str::<impl str>::replace", "alloc::str::<impl str>::replace", "core::str::<impl str>::replace")
+def _str_replace(m, a, c):
+    s, p, r = _s(a[0]), deref(a[1]), _s(a[2])
+    if not isinstance(p, str):
+        raise Unsupported("replace with a non-string pattern")
+    return s.replace(p, r)
+
+
+@reg("core::str::<impl str>::split_once")
+def _str_split_once(m, a, c):
+    s, p = _s(a[0]), deref(a[1])
+    if not isinstance(p, str):
+        raise Unsupported("split_once with a non-string pattern")
+    i = s.find(p)
+    if i < 0:
+        return NONE
+    return some((s[:i], s[i + len(p):]))
+
+
+@reg("core::str::<impl str>::rsplit_once")
+def _str_rsplit_once(m, a, c):
+    s, p = _s(a[0]), deref(a[1])
+    if not isinstance(p, str):
+        raise Unsupported("rsplit_once with a non-string pattern")
+    i = s.rfind(p)
+    if i < 0:
+        return NONE
+    return some((s[:i], s[i + len(p):]))
 
 
 @reg("core::str::<impl str>::strip_suffix")
@@ -2436,7 +2522,21 @@ def _try_into(m, a, c):
         return ok(v) if lo <= v <= hi else err(Term("TryFromIntError", v))
     if isinstance(v, Term):
         return Term("try_into", v, tgt)
-    return NOT_HANDLED
+    # the blanket impl: U::try_from(self) -- a crate-local TryFrom impl for the target type
+    from .tystr import type_head
+    cands = []
+    for imp in m.facts.impls:
+        if imp.get("trait") == "std::convert::TryFrom" and type_head(imp.get("self_ty") or "") == type_head(tgt):
+            for it in imp["items"]:
+                if it["name"] == "try_from" and it["path"] in m.facts.bodies:
+                    cands.append((imp.get("trait_str") or "", it["path"]))
+    if len(cands) > 1:
+        src = "str" if isinstance(v, str) else None
+        pick = [p_ for ts, p_ in cands if src and ("TryFrom<&str>" in ts or "TryFrom<&'a str>" in ts)]
+        cands = [("", pick[0])] if len(pick) == 1 else cands
+    if len(cands) == 1:
+        return m.call_path(cands[0][1], [a[0]])
+    raise Unsupported("TryInto<%s> of %r" % (tgt, v))
 
 
 # ---- maps (BTreeMap / HashMap): association lists; iteration order = key order when keys are comparable ----------
